@@ -1,5 +1,18 @@
+"""C02: steps start only after their dependencies, with the data those produced."""
 import family
 
 
+def loop_shapes(ctx):
+    """values that travel into the runs a loop step starts for its items: the item itself, and a deployment configuration
+    computed from it (the prepared sub-workflow is shared by all items: each item run deploys with ITS configuration)"""
+    def f(rng):
+        import check_c13
+        items = [check_c13.per_item_deploy_item(rng, 3, 1), check_c13.per_item_deploy_item(rng, 4, 2), check_c13.computed_items_item(rng)]
+        if not ctx.quick:
+            items += [check_c13.per_item_deploy_item(rng, 6, 3), check_c13.nested_loop_item(rng, 2, ['success', 'success'])]
+        return items
+    return f
+
+
 def run(ctx):
-    family.run_family_check(ctx, 'C02', n_quick=40, n_thorough=400)
+    family.run_family_check(ctx, 'C02', n_quick=40, n_thorough=400, extra_items=loop_shapes(ctx))
